@@ -1,16 +1,144 @@
 (* C07 -- the WSGI environ is the exact PEP 3333 image of the request.
-   Statements only; proofs are in Proof/Environ*.v. *)
+   Statements only; proofs are in Proof/Environ*.v, non-vacuity examples in
+   Proof/EnvironExamples.v.
+
+   Quantification.  [feed_all a ds = Some p] ranges over every way of offering
+   bytes to a fresh parser: any number of received() calls with any data, for
+   any limits [a].  "Accepted" is: completed, no error, not the empty
+   request.  [head_of ds hp] / [head_lines hp fl lines] tie the header block
+   [hp], the request line [fl] and the (unfolded) header [lines] to the bytes
+   offered.  [c] ranges over all server configurations (url_prefix,
+   server_name, effective_port, ident, TCP and unix peers).  The specification
+   side (spec_header, spec_environ, pct_decode, raw_path, raw_query,
+   path_info, collapse) is Spec/Pep3333.v, which does not mention the model. *)
 From Coq Require Import List NArith ZArith Bool.
 From RecordUpdate Require Import RecordUpdate.
-From WV Require Import Lib.PyBytes Model.Receiver Model.Parser Model.Environ Spec.Pep3333
-  Proof.EnvironDict.
+From WV Require Import Lib.PyBytes Lib.Regex Gen.GenRegex Model.Receiver Model.UrlSplit Model.Parser
+  Model.Environ Spec.Pep3333
+  Proof.EnvironDict Proof.EnvironParse Proof.EnvironRun Proof.EnvironFields Proof.EnvironTarget
+  Proof.EnvironLatin1 Proof.EnvironBody Proof.EnvironImage Proof.EnvironMain Proof.EnvironExamples.
 Import ListNotations.
 Local Open Scope N_scope.
 
+(* Header fields.  For every accepted run there are header lines (those of
+   the head block of the bytes offered) such that every protocol-specific
+   entry of the environ -- every key of the form HTTP_*, CONTENT_LENGTH,
+   CONTENT_TYPE, present or absent -- is what the specification computes from
+   the field list [map cut_colon lines]: the values of all field lines whose
+   name maps to that key (case-insensitively, "-" as "_", names containing
+   "_" excluded), stripped of SP / HTAB, joined by ", " in arrival order. *)
+Theorem C07_fields : forall a ds p,
+  feed_all a ds = Some p -> completed p = true -> error p = None -> empty p = false ->
+  exists hp fl lines,
+    head_of ds hp /\ head_lines hp fl lines /\
+    forall c ek, is_header_key ek = true ->
+      eget (get_environment c p) ek = option_map VStr (spec_header (request_of p lines) ek).
+Proof. exact fields_image. Qed.
+Print Assumptions C07_fields.
+
+(* ... in particular under the CGI name of any field name at all *)
+Theorem C07_field_name : forall name, is_header_key (cgi_key name) = true.
+Proof. exact cgi_key_header_form. Qed.
+Print Assumptions C07_field_name.
+
+(* Names containing an underscore never appear: deleting every such field
+   line leaves the parser's dictionary -- hence the environ -- exactly as it
+   was (for any starting dictionary and any list of lines), and the
+   specification ignores them too. *)
+Theorem C07_no_underscore :
+  (forall lines h h', add_header_lines h lines = inr h' ->
+     add_header_lines h (filter (fun l => negb (underscore_line l)) lines) = inr h') /\
+  (forall rq ek,
+     spec_header {| rq_method := rq_method rq; rq_target := rq_target rq; rq_version := rq_version rq;
+                    rq_fields := filter (fun nv => negb (has_underscore (fst nv))) (rq_fields rq);
+                    rq_chunked := rq_chunked rq; rq_body := rq_body rq |} ek
+     = spec_header rq ek).
+Proof. exact no_underscore_both. Qed.
+Print Assumptions C07_no_underscore.
+
 (* No client header can replace a server-defined variable: for every parser
-   state (any header dictionary at all) and every configuration, each of the
-   21 keys of the dict literal keeps the value the server gave it. *)
+   state (any header dictionary at all, reachable or not) and every
+   configuration, each of the 21 keys of the dict literal keeps the value the
+   server gave it, and waitress.client_disconnected is the channel's. *)
 Theorem C07_no_override : forall c p k, In k server_keys ->
-  eget (get_environment c p) k = eget (base_environ c p) k.
-Proof. exact no_override. Qed.
+  eget (get_environment c p) k = eget (base_environ c p) k /\
+  (exists v, eget (base_environ c p) k = Some v) /\
+  (forall h, eget (get_environment c (p <| headers := h |>)) k = eget (get_environment c p) k) /\
+  eget (get_environment c p) k_waitress_client_disconnected = Some VDisconnected.
+Proof. exact no_override_full. Qed.
 Print Assumptions C07_no_override.
+
+(* ... because no key the header loop can produce is a server key *)
+Theorem C07_header_keys_disjoint :
+  (forall key, is_header_key (env_key key) = true) /\
+  (forall k, In k (k_waitress_client_disconnected :: server_keys) -> is_header_key k = false).
+Proof. exact header_keys_disjoint. Qed.
+Print Assumptions C07_header_keys_disjoint.
+
+(* Every string of the environ is a latin-1 native string. *)
+Theorem C07_latin1 : forall a c ds p,
+  ok (adj_url_scheme a) -> ok_config c -> Forall ok ds ->
+  feed_all a ds = Some p -> completed p = true -> error p = None -> empty p = false ->
+  ok_environ (get_environment c p).
+Proof. exact environ_latin1. Qed.
+Print Assumptions C07_latin1.
+
+(* The request line.  REQUEST_METHOD is the method token as sent (upper-case
+   visible ASCII, the text before the first SP of the request line);
+   SCRIPT_NAME is the url_prefix; SERVER_PROTOCOL is "HTTP/" + version for
+   1.0 and 1.1; for targets made of visible ASCII characters PATH_INFO is the
+   percent-decoded path component, leading slashes collapsed, split at the
+   prefix, and QUERY_STRING the raw query component. *)
+Theorem C07_target : forall a c ds p,
+  Forall ok ds ->
+  feed_all a ds = Some p -> completed p = true -> error p = None -> empty p = false ->
+  target_statement c p /\
+  exists hp fl lines, head_of ds hp /\ head_lines hp fl lines /\
+                      request_line_pieces fl (command p) (request_uri p) (version p).
+Proof. exact target_image. Qed.
+Print Assumptions C07_target.
+
+(* the pieces of C07_target that hold of the functions themselves, for all inputs *)
+Theorem C07_target_functions :
+  (forall s, unquote_to_bytes s = pct_decode s) /\
+  (forall prefix path0, environ_path prefix path0 = path_info prefix (collapse path0)) /\
+  (forall t sc nl pa qu fr, wf_target t -> split_uri t = SOk sc nl pa qu fr ->
+     pa = pct_decode (raw_path t) /\ qu = raw_query t).
+Proof. exact target_functions. Qed.
+Print Assumptions C07_target_functions.
+
+(* The body.  wsgi.input yields the receiver's buffer; CONTENT_LENGTH, when
+   present, is a digit string whose value is the number of bytes wsgi.input
+   yields; for a chunked request it is exactly str(decoded length) whatever
+   Content-Length the client sent; without CONTENT_LENGTH wsgi.input is empty;
+   on HTTP/1.1 Transfer-Encoding is not in the environ. *)
+Theorem C07_body : forall a c ds p,
+  feed_all a ds = Some p -> completed p = true -> error p = None -> empty p = false ->
+  body_statement c p.
+Proof. exact body_image. Qed.
+Print Assumptions C07_body.
+
+(* The Content-Length receiver hands on exactly the first cl bytes of what it
+   is offered, however the bytes are segmented, and is complete exactly when
+   cl bytes have arrived. *)
+Theorem C07_body_fixed_exact : forall cl ds, 0 < cl ->
+  let f := fixed_feed (fixed_init cl) ds in
+  f_buf f = firstn (N.to_nat cl) (concat ds) /\
+  f_remain f + lenN (f_buf f) = cl /\
+  (f_completed f = true <-> cl <= lenN (concat ds)).
+Proof. exact fixed_feed_exact. Qed.
+Print Assumptions C07_body_fixed_exact.
+
+(* The whole environ: model and specification are the same finite map, key by
+   key, for every accepted run whose target is visible ASCII and whose version
+   is 1.0 or 1.1 (the two side conditions of the specification). *)
+Theorem C07_environ_image : forall a c ds p,
+  Forall ok ds ->
+  feed_all a ds = Some p -> completed p = true -> error p = None -> empty p = false ->
+  wf_target (request_uri p) -> (version p = s_1_0 \/ version p = s_1_1) ->
+  exists hp fl lines,
+    head_of ds hp /\ head_lines hp fl lines /\
+    forall k, option_map sval_of (eget (get_environment c p) k) =
+              slookup (spec_environ (gateway_of a c) (request_of p lines)) k.
+Proof. exact environ_image. Qed.
+Print Assumptions C07_environ_image.
